@@ -450,6 +450,10 @@ static void on_yield(int point)
 {
   u64 y = static_cast<u64>(point);
   u64 v = g_visits[y]++;
+  bool any = false;
+  for (auto const& inj : g_inj)
+    if (inj.y == y && inj.v == v && !inj.cmds.empty()) any = true;
+  if (any) obs({8, y, v});
   for (auto const& inj : g_inj)
     if (inj.y == y && inj.v == v)
       for (auto const& c : inj.cmds) exec_simple(c);
